@@ -119,3 +119,14 @@ func strReplayer(check func(src string) string) func(raw json.RawMessage) string
 		return check(c.get())
 	}
 }
+
+// jsonReplayer adapts an oracle over a JSON-decodable case type.
+func jsonReplayer[T any](check func(c T) string) func(raw json.RawMessage) string {
+	return func(raw json.RawMessage) string {
+		var c T
+		if err := json.Unmarshal(raw, &c); err != nil {
+			return "bad replay case: " + err.Error()
+		}
+		return check(c)
+	}
+}
